@@ -15,10 +15,10 @@
 //! correspondence of run (i) with the instance model of Det.v (Disagree).
 use common::{catch, coq_bool, coq_bytes, coq_list, coq_opt, coq_text, Case, Out, Rng};
 use cosmwasm_std::testing::{MockApi, MockStorage};
-use cosmwasm_std::{Addr, Api, Binary, BlockInfo, Checksum, Empty, Storage, Timestamp};
+use cosmwasm_std::{Addr, Api, Binary, BlockInfo, Checksum, Coin, CosmosMsg, Decimal, DistributionMsg, Empty, StakingMsg, Storage, Timestamp, Uint128, Validator};
 use cw_multi_test::{
     no_init, App, AppBuilder, AppResponse, BankKeeper, BankSudo, Contract, DistributionKeeper, Executor, GovFailingModule, IbcFailingModule,
-    MockApiBech32m, StakeKeeper, StargateFailing, SudoMsg, WasmKeeper,
+    MockApiBech32m, StakeKeeper, StakingInfo, StakingSudo, StargateFailing, SudoMsg, WasmKeeper,
 };
 use exec_common::contract::*;
 use exec_common::driver::*;
@@ -54,6 +54,51 @@ pub enum IOp {
     /// `App::block_info()` + `wrap().query_wasm_code_info(id)` for each id
     Probe(Vec<u64>),
     Top(TopOp),
+    /// operations the executor model does not cover (Det.IOpaque): observed and compared across runs, not predicted
+    Opaque(OpaqueOp),
+}
+
+#[derive(Serialize, Deserialize, Clone, Debug, PartialEq)]
+pub enum OpaqueOp {
+    /// `app.init_modules`: StakeKeeper::setup + add_validator (address, commission percent)
+    StakingSetup { denom: String, unbonding_secs: u64, apr_percent: u64, validators: Vec<(String, u64)> },
+    Delegate { sender: String, validator: String, amount: CoinS },
+    Undelegate { sender: String, validator: String, amount: CoinS },
+    Redelegate { sender: String, src: String, dst: String, amount: CoinS },
+    /// DistributionMsg::WithdrawDelegatorReward
+    Withdraw { sender: String, validator: String },
+    /// StakingSudo::Slash
+    Slash { validator: String, percent: u64 },
+    /// App::update_block (processes the unbonding queue)
+    UpdateBlock { blocks: u64, secs: u64 },
+    /// App::set_block once staking is set up (it processes the unbonding queue, which pays out)
+    SetBlock(BlockS),
+}
+impl OpaqueOp {
+    fn tag(&self) -> u64 {
+        match self {
+            OpaqueOp::StakingSetup { .. } => 1,
+            OpaqueOp::Delegate { .. } => 2,
+            OpaqueOp::Undelegate { .. } => 3,
+            OpaqueOp::Redelegate { .. } => 4,
+            OpaqueOp::Withdraw { .. } => 5,
+            OpaqueOp::Slash { .. } => 6,
+            OpaqueOp::UpdateBlock { .. } => 7,
+            OpaqueOp::SetBlock(_) => 8,
+        }
+    }
+    fn name(&self) -> &'static str {
+        match self {
+            OpaqueOp::StakingSetup { .. } => "staking_setup",
+            OpaqueOp::Delegate { .. } => "delegate",
+            OpaqueOp::Undelegate { .. } => "undelegate",
+            OpaqueOp::Redelegate { .. } => "redelegate",
+            OpaqueOp::Withdraw { .. } => "withdraw_rewards",
+            OpaqueOp::Slash { .. } => "slash",
+            OpaqueOp::UpdateBlock { .. } => "update_block",
+            OpaqueOp::SetBlock(_) => "set_block",
+        }
+    }
 }
 
 #[derive(Serialize, Deserialize, Clone, Debug, PartialEq)]
@@ -69,6 +114,8 @@ pub enum IOut {
     Unit,
     Probe(BlockS, Vec<Option<(u64, String, B)>>),
     Top(Vec<Entry>, OutcomeS),
+    /// responses (events + data) or error-ness, and `block_info()` after the operation
+    Opaque(OutcomeS, BlockS),
 }
 
 #[derive(Serialize, Deserialize, Clone, Debug, PartialEq)]
@@ -167,6 +214,71 @@ fn run_top(app: &mut TApp, op: &TopOp) -> (OutcomeS, String) {
     }
 }
 
+fn run_opaque(app: &mut TApp, op: &OpaqueOp) -> (OutcomeS, String) {
+    type R = Result<Vec<(Vec<EventS>, Option<B>)>, String>;
+    let std_coin = |c: &CoinS| Coin { denom: c.denom.clone(), amount: Uint128::new(c.amount) };
+    let r = catch(|| -> R {
+        match op {
+            OpaqueOp::StakingSetup { denom, unbonding_secs, apr_percent, validators } => {
+                let block = app.block_info();
+                app.init_modules(|router, api, storage| -> R {
+                    router
+                        .staking
+                        .setup(storage, StakingInfo { bonded_denom: denom.clone(), unbonding_time: *unbonding_secs, apr: Decimal::percent(*apr_percent) })
+                        .map_err(|e| format!("{:#}", e))?;
+                    for (v, c) in validators {
+                        router
+                            .staking
+                            .add_validator(api, storage, &block, Validator::create(v.clone(), Decimal::percent(*c), Decimal::one(), Decimal::one()))
+                            .map_err(|e| format!("{:#}", e))?;
+                    }
+                    Ok(vec![])
+                })
+            }
+            OpaqueOp::Delegate { sender, validator, amount } => app
+                .execute(Addr::unchecked(sender.clone()), CosmosMsg::<CMsg>::Staking(StakingMsg::Delegate { validator: validator.clone(), amount: std_coin(amount) }))
+                .map(|r| vec![resp(&r)])
+                .map_err(|e| format!("{:#}", e)),
+            OpaqueOp::Undelegate { sender, validator, amount } => app
+                .execute(Addr::unchecked(sender.clone()), CosmosMsg::<CMsg>::Staking(StakingMsg::Undelegate { validator: validator.clone(), amount: std_coin(amount) }))
+                .map(|r| vec![resp(&r)])
+                .map_err(|e| format!("{:#}", e)),
+            OpaqueOp::Redelegate { sender, src, dst, amount } => app
+                .execute(
+                    Addr::unchecked(sender.clone()),
+                    CosmosMsg::<CMsg>::Staking(StakingMsg::Redelegate { src_validator: src.clone(), dst_validator: dst.clone(), amount: std_coin(amount) }),
+                )
+                .map(|r| vec![resp(&r)])
+                .map_err(|e| format!("{:#}", e)),
+            OpaqueOp::Withdraw { sender, validator } => app
+                .execute(Addr::unchecked(sender.clone()), CosmosMsg::<CMsg>::Distribution(DistributionMsg::WithdrawDelegatorReward { validator: validator.clone() }))
+                .map(|r| vec![resp(&r)])
+                .map_err(|e| format!("{:#}", e)),
+            OpaqueOp::Slash { validator, percent } => app
+                .sudo(SudoMsg::Staking(StakingSudo::Slash { validator: validator.clone(), percentage: Decimal::percent(*percent) }))
+                .map(|r| vec![resp(&r)])
+                .map_err(|e| format!("{:#}", e)),
+            OpaqueOp::UpdateBlock { blocks, secs } => {
+                let (b, t) = (*blocks, *secs);
+                app.update_block(move |blk| {
+                    blk.height += b;
+                    blk.time = blk.time.plus_seconds(t);
+                });
+                Ok(vec![])
+            }
+            OpaqueOp::SetBlock(b) => {
+                app.set_block(to_block(b));
+                Ok(vec![])
+            }
+        }
+    });
+    match r {
+        Ok(Ok(v)) => (OutcomeS::Ok(v), String::new()),
+        Ok(Err(m)) => (OutcomeS::Err, m),
+        Err(p) => (OutcomeS::Panic, format!("panic: {}", p)),
+    }
+}
+
 fn full_digest(raw: &[(B, B)]) -> String {
     let mut h = Sha256::new();
     for (k, v) in raw {
@@ -213,6 +325,11 @@ fn run_iop(app: &mut TApp, op: &IOp) -> IObs {
             let _ = take_log();
             let (o, m) = run_top(app, t);
             (IOut::Top(take_log(), o), m)
+        }
+        IOp::Opaque(o) => {
+            let (oc, m) = run_opaque(app, o);
+            let _ = take_log();
+            (IOut::Opaque(oc, block_from_std(&app.block_info())), m)
         }
     };
     let raw = raw_dump(app.storage());
@@ -753,7 +870,128 @@ fn fixed_scenarios() -> Vec<Scn> {
         },
         None,
     ));
+    v.extend(staking_scenarios());
     v
+}
+
+fn has_opaque(scn: &Scn) -> bool {
+    scn.hist.iter().any(|o| matches!(o, IOp::Opaque(_)))
+}
+
+fn validator(name: &str) -> String {
+    user(name)
+}
+
+/// fixed histories with staking: the executor model does not cover these operations (they are opaque to it), the
+/// relational oracle compares everything they return and leave
+fn staking_scenarios() -> Vec<Scn> {
+    let spec = |tag: u64| CSpec { tag, checksum: None, has_sudo: true, has_reply: true, has_migrate: true };
+    let (alice, bob) = (user("alice"), user("bob"));
+    let (v1, v2) = (validator("validator1"), validator("validator2"));
+    let users = vec![alice.clone(), bob.clone(), user("carol"), v1.clone(), v2.clone()];
+    let c = |a: u128| CoinS { denom: "uatom".into(), amount: a };
+    let top = |op: TopOp| IOp::Top(op);
+    let setup = IOp::Opaque(OpaqueOp::StakingSetup { denom: "uatom".into(), unbonding_secs: 60, apr_percent: 10, validators: vec![(v1.clone(), 10), (v2.clone(), 0)] });
+    let inst = |node: u64, sender: &str| {
+        top(TopOp::Exec { sender: sender.to_string(), m: Msg::Inst { code_id: 1, p: leaf(node, vec![]), funds: vec![c(3)], label: "L".into(), admin: None, salt: None } })
+    };
+    let mut v = vec![];
+    // S1: delegate, advance, withdraw, undelegate, redelegate, slash, process the queue; modelled calls in between
+    let codes1 = {
+        let mut t = vec![];
+        predict(&mut t, &IOp::Store { creator: None, spec: spec(100) });
+        t
+    };
+    let h1 = vec![
+        IOp::Probe(vec![0, 1]),
+        IOp::Store { creator: None, spec: spec(100) },
+        setup.clone(),
+        top(TopOp::Mint { to: alice.clone(), amt: vec![c(5000)] }),
+        top(TopOp::Mint { to: bob.clone(), amt: vec![c(500), CoinS { denom: "btc".into(), amount: 5 }] }),
+        IOp::Opaque(OpaqueOp::Delegate { sender: alice.clone(), validator: v1.clone(), amount: c(1000) }),
+        IOp::Opaque(OpaqueOp::Delegate { sender: bob.clone(), validator: v1.clone(), amount: c(50) }),
+        inst(1, &alice),
+        IOp::Opaque(OpaqueOp::UpdateBlock { blocks: 10, secs: 31_536_000 }),
+        IOp::Opaque(OpaqueOp::Withdraw { sender: alice.clone(), validator: v1.clone() }),
+        IOp::Opaque(OpaqueOp::Undelegate { sender: alice.clone(), validator: v1.clone(), amount: c(40) }),
+        IOp::Opaque(OpaqueOp::Redelegate { sender: alice.clone(), src: v1.clone(), dst: v2.clone(), amount: c(30) }),
+        top(TopOp::Exec { sender: alice.clone(), m: Msg::BankSend { to: bob.clone(), amt: vec![c(7)] } }),
+        IOp::Opaque(OpaqueOp::Slash { validator: v1.clone(), percent: 10 }),
+        IOp::Opaque(OpaqueOp::UpdateBlock { blocks: 1, secs: 30 }),
+        IOp::Opaque(OpaqueOp::Undelegate { sender: bob.clone(), validator: v1.clone(), amount: c(10) }),
+        IOp::Opaque(OpaqueOp::UpdateBlock { blocks: 1, secs: 31 }),
+        inst(2, &bob),
+        IOp::Opaque(OpaqueOp::UpdateBlock { blocks: 5, secs: 31_536_000 }),
+        IOp::Opaque(OpaqueOp::Withdraw { sender: bob.clone(), validator: v1.clone() }),
+        top(TopOp::HelperExec { sender: bob.clone(), c: classic_address(1, 0), p: leaf(3, vec![Action::Q(QAct::AllBal(alice.clone()))]), funds: vec![] }),
+        IOp::Probe(vec![0, 1, 2]),
+    ];
+    v.push(Scn { hist: h1, codes: codes1.clone(), users: users.clone() });
+    // S2: failing staking operations between successful ones
+    let h2 = vec![
+        IOp::Probe(vec![0, 1]),
+        IOp::Opaque(OpaqueOp::Delegate { sender: alice.clone(), validator: v1.clone(), amount: c(1) }), // staking not set up
+        setup.clone(),
+        IOp::Store { creator: None, spec: spec(100) },
+        top(TopOp::Mint { to: alice.clone(), amt: vec![c(200), CoinS { denom: "btc".into(), amount: 9 }] }),
+        IOp::Opaque(OpaqueOp::Delegate { sender: alice.clone(), validator: validator("nobody"), amount: c(10) }),
+        IOp::Opaque(OpaqueOp::Delegate { sender: alice.clone(), validator: v2.clone(), amount: CoinS { denom: "btc".into(), amount: 1 } }),
+        IOp::Opaque(OpaqueOp::Delegate { sender: alice.clone(), validator: v2.clone(), amount: c(0) }),
+        IOp::Opaque(OpaqueOp::Delegate { sender: alice.clone(), validator: v2.clone(), amount: c(1000) }),
+        IOp::Opaque(OpaqueOp::Delegate { sender: alice.clone(), validator: v2.clone(), amount: c(60) }),
+        IOp::Opaque(OpaqueOp::Undelegate { sender: alice.clone(), validator: v2.clone(), amount: c(61) }),
+        IOp::Opaque(OpaqueOp::Undelegate { sender: bob.clone(), validator: v2.clone(), amount: c(1) }),
+        IOp::Opaque(OpaqueOp::Withdraw { sender: bob.clone(), validator: v2.clone() }),
+        IOp::Opaque(OpaqueOp::Redelegate { sender: alice.clone(), src: v2.clone(), dst: validator("nobody"), amount: c(5) }),
+        IOp::Opaque(OpaqueOp::Undelegate { sender: alice.clone(), validator: v2.clone(), amount: c(20) }),
+        IOp::Opaque(OpaqueOp::SetBlock(BlockS { height: 12400, time_ns: 1_571_797_419_879_305_533 + 70_000_000_000, chain_id: "cosmos-testnet-14002".into() })),
+        inst(1, &alice),
+        IOp::Opaque(OpaqueOp::Slash { validator: v2.clone(), percent: 50 }),
+        IOp::Opaque(OpaqueOp::Undelegate { sender: alice.clone(), validator: v2.clone(), amount: c(5) }),
+        IOp::Opaque(OpaqueOp::UpdateBlock { blocks: 1, secs: 61 }),
+        IOp::Probe(vec![0, 1, 2]),
+    ];
+    v.push(Scn { hist: h2, codes: codes1, users });
+    v
+}
+
+/// thorough tier: a generated history gets a staking set-up and a few staking operations at random places
+fn add_staking(rng: &mut Rng, scn: &mut Scn) {
+    let (v1, v2) = (validator("validator1"), validator("validator2"));
+    let probes: Vec<usize> = scn.hist.iter().enumerate().filter(|(_, o)| matches!(o, IOp::Probe(_))).map(|(i, _)| i).collect();
+    if probes.len() < 3 {
+        return;
+    }
+    let first = probes[1] + 1;
+    scn.hist.insert(
+        first,
+        IOp::Opaque(OpaqueOp::StakingSetup { denom: "uatom".into(), unbonding_secs: 20, apr_percent: 10, validators: vec![(v1.clone(), 5), (v2.clone(), 0)] }),
+    );
+    for o in scn.hist.iter_mut().skip(first) {
+        if let IOp::SetBlock(b) = o {
+            *o = IOp::Opaque(OpaqueOp::SetBlock(b.clone()));
+        }
+    }
+    let users = scn.users.clone();
+    let n = 3 + rng.below(4);
+    for _ in 0..n {
+        let lo = (first + 4).min(scn.hist.len() - 1);
+        let at = lo + rng.below((scn.hist.len() - lo) as u64) as usize;
+        let sender = rng.pick(&users).clone();
+        let val = if rng.chance(1, 2) { v1.clone() } else { v2.clone() };
+        let amount = CoinS { denom: "uatom".into(), amount: 1 + rng.below(30) as u128 };
+        let op = match rng.below(10) {
+            0..=3 => OpaqueOp::Delegate { sender, validator: val, amount },
+            4 | 5 => OpaqueOp::Undelegate { sender, validator: val, amount },
+            6 => OpaqueOp::Redelegate { sender, src: v1.clone(), dst: v2.clone(), amount },
+            7 => OpaqueOp::Withdraw { sender, validator: val },
+            8 => OpaqueOp::Slash { validator: val, percent: 10 },
+            _ => OpaqueOp::UpdateBlock { blocks: 1, secs: 5 + rng.below(30) },
+        };
+        scn.hist.insert(at.min(scn.hist.len() - 1), IOp::Opaque(op));
+    }
+    scn.users.push(v1);
+    scn.users.push(v2);
 }
 
 // ---------------------------------------------------------------------------------------------------
@@ -778,6 +1016,18 @@ fn p_iop(op: &IOp) -> String {
         IOp::SetBlock(b) => format!("ISetBlock {}", print::block(b)),
         IOp::Probe(ids) => format!("IProbe {}", coq_list(ids, |i| i.to_string())),
         IOp::Top(t) => format!("ITop {}", print::topop(t)),
+        IOp::Opaque(_) => panic!("opaque operations are printed with the observation of run (i): p_iop_obs"),
+    }
+}
+
+/// an opaque operation carries what run (i) returned and left (Det.IOpaque): the model takes it as given
+fn p_iop_obs(op: &IOp, ob: Option<&IObs>, it: &mut Intern) -> String {
+    match (op, ob) {
+        (IOp::Opaque(o), Some(IObs { out: IOut::Opaque(oc, b), state, .. })) => {
+            format!("IOpaque {} {} {} {}", o.tag(), print::outcome(oc), print::block(b), it.chain(state))
+        }
+        (IOp::Opaque(o), _) => format!("IOpaque {} Panic {} {}", o.tag(), print::block(&G::block0()), it.chain(&StateS::default())),
+        _ => p_iop(op),
     }
 }
 
@@ -793,6 +1043,7 @@ fn p_iout(o: &IOut) -> String {
             coq_list(l, |x| coq_opt(x, |(id, cr, cs)| format!("({},{},{})", id, print::text(cr), coq_bytes(cs))))
         ),
         IOut::Top(tr, o) => format!("(RTop {} {})", coq_list(tr, print::entry), print::outcome(o)),
+        IOut::Opaque(o, b) => format!("(ROpaque {} {})", print::outcome(o), print::block(b)),
     }
 }
 
@@ -853,6 +1104,8 @@ pub const RUN_NAMES: [&str; 11] = [
     "child-process-other-env-and-cwd",
     "child-process-after-polluters",
 ];
+/// only for histories with opaque (staking) operations: made more than a second of wall-clock time after run (i)
+pub const LATE_NAMES: [&str; 2] = ["late-in-process-after-1.3s", "late-child-process-after-1.3s"];
 /// the second family (history transposed to OTHER_PREFIX), compared among themselves; the first is the reference
 /// (run numbers continue after RUN_NAMES)
 pub const ALT_NAMES: [&str; 3] = [
@@ -875,9 +1128,9 @@ fn p_case(idx: usize, scn: &Scn, r0: &[IObs], others: &[Vec<IObs>], alt: &[Vec<I
     let mut ck_ids = probe_ids(&scn.codes);
     ck_ids.retain(|i| *i != 0);
     let ck = coq_list(&ck_ids, |i| format!("({},{})", i, coq_bytes(&default_checksum(*i))));
-    let hist = format!("[{}]", scn.hist.iter().map(p_iop).collect::<Vec<_>>().join(";\n    "));
     let mut it = Intern { pfx: format!("k{}_", idx), ..Default::default() };
     let r0s = it.run(r0);
+    let hist = format!("[{}]", scn.hist.iter().enumerate().map(|(i, o)| p_iop_obs(o, r0.get(i), &mut it)).collect::<Vec<_>>().join(";\n    "));
     let os: Vec<String> = others.iter().map(|r| it.run(r)).collect();
     let alts: Vec<String> = alt.iter().map(|r| it.run(r)).collect();
     let mut s = String::from("(*@@\n");
@@ -928,6 +1181,8 @@ struct Runs {
     others: Vec<Vec<IObs>>,
     /// in the order of ALT_NAMES
     alt: Vec<Vec<IObs>>,
+    /// in the order of LATE_NAMES (only for histories with opaque operations); appended to `others`
+    late: Vec<Vec<IObs>>,
 }
 
 /// everything that runs in this process; the child-process transcripts are filled in later (empty placeholders)
@@ -964,6 +1219,7 @@ fn in_process_runs(rng: &mut Rng, scn: &Scn, scn_alt: &Scn, strangers: &[&Scn]) 
         r0,
         others: vec![after, twin_l, twin_r, stranger_first, self_first, with_other_prefix, th, polluted_thread, vec![], vec![], vec![]],
         alt: vec![vec![], alt_in_process, alt_interleaved],
+        late: vec![],
     }
 }
 
@@ -984,8 +1240,12 @@ fn stats_for(out: &mut Out, scn: &Scn, r0: &[IObs]) {
             IOp::SetBlock(_) => "op_set_block",
             IOp::Probe(_) => "op_probe",
             IOp::Top(_) => "op_top",
+            IOp::Opaque(_) => "op_opaque",
         };
         out.stat(kind, 1);
+        if let (IOp::Opaque(o), IOut::Opaque(oc, _)) = (op, &ob.out) {
+            out.stat(&format!("opaque_{}_{}", o.name(), exec_common::outcome_class(oc)), 1);
+        }
         match &ob.out {
             IOut::Id(IdOut::Ok(_)) => out.stat("code_id_generated_or_accepted", 1),
             IOut::Id(IdOut::Err) => out.stat("code_op_err", 1),
@@ -1002,7 +1262,7 @@ fn stats_for(out: &mut Out, scn: &Scn, r0: &[IObs]) {
                 }
             }
             IOut::Probe(_, l) => out.stat("code_infos_probed", l.iter().filter(|x| x.is_some()).count() as u64),
-            IOut::Unit => {}
+            IOut::Unit | IOut::Opaque(..) => {}
         }
         if let IOp::Top(t) = op {
             let salted = match t {
@@ -1052,7 +1312,12 @@ fn main() {
         let n = if args.thorough { 500 } else { 50 } * args.scale * boost;
         for _ in 0..n {
             let mut r = rng.fork();
-            scns.push(gen_scn(&mut r, &cfg));
+            let mut scn = gen_scn(&mut r, &cfg);
+            // histories with staking get two more runs after a wall-clock pause: only in the thorough tier
+            if args.thorough && r.chance(1, 10) {
+                add_staking(&mut r, &mut scn);
+            }
+            scns.push(scn);
         }
     }
     let n = scns.len();
@@ -1099,7 +1364,23 @@ fn main() {
             let st_refs: Vec<&Scn> = st.iter().collect();
             partial.push(in_process_runs(&mut rng, &scns[j], &alts[j - j0], &st_refs));
         }
+        // LATE runs, for histories with opaque (staking) operations: after a wall-clock pause of more than a second
+        // since run (i) of every scenario of this chunk — in this process and in a fresh one.  A value taken from
+        // the system clock (even rounded to seconds) cannot repeat.
+        let staking: Vec<usize> = (j0..j1).filter(|j| has_opaque(&scns[*j])).collect();
+        let mut late: BTreeMap<usize, (Vec<IObs>, std::io::Result<std::process::Child>)> = BTreeMap::new();
+        if !staking.is_empty() {
+            std::thread::sleep(std::time::Duration::from_millis(1300));
+            for j in &staking {
+                let child = spawn_child(&children[*j - j0].4[0], false, 0);
+                late.insert(*j, (solo(&scns[*j].hist), child));
+            }
+        }
         for (k, (c1, c2, c3, c4, fs)) in children.into_iter().enumerate() {
+            if let Some((t_in, ch)) = late.remove(&(j0 + k)) {
+                let t_ch = collect_child(ch, &|| spawn_child(&fs[0], false, 0));
+                partial[k].late = vec![t_in, t_ch];
+            }
             let t1 = collect_child(c1, &|| spawn_child(&fs[0], false, 0));
             let t2 = collect_child(c2, &|| spawn_child(&fs[0], true, 7));
             let t3 = collect_child(c3, &|| spawn_child(&fs[1], false, 0));
@@ -1107,7 +1388,7 @@ fn main() {
             for f in fs.iter() {
                 let _ = std::fs::remove_file(f);
             }
-            let no = partial[k].others.len();
+            let no = RUN_NAMES.len();
             partial[k].others[no - 3] = t1;
             partial[k].others[no - 2] = t2;
             partial[k].others[no - 1] = t3;
@@ -1116,11 +1397,19 @@ fn main() {
         for (k, runs) in partial.into_iter().enumerate() {
             let j = j0 + k;
             let scn = &scns[j];
+            let mut runs = runs;
             assert_eq!(runs.others.len(), RUN_NAMES.len());
             assert_eq!(runs.alt.len(), ALT_NAMES.len());
+            let mut other_names: Vec<&str> = RUN_NAMES.to_vec();
+            if !runs.late.is_empty() {
+                other_names.extend(LATE_NAMES.iter());
+                let l = std::mem::take(&mut runs.late);
+                runs.others.extend(l);
+                out.stat("scenarios_with_late_runs", 1);
+            }
             stats_for(&mut out, scn, &runs.r0);
             let mut diffs = serde_json::Map::new();
-            for (name, r) in RUN_NAMES.iter().zip(runs.others.iter()) {
+            for (name, r) in other_names.iter().zip(runs.others.iter()) {
                 if let Some(d) = first_rust_diff(&runs.r0, r) {
                     out.stat(&format!("rust_side_mismatch_{}", name), 1);
                     diffs.insert(name.to_string(), serde_json::json!({"first_differing_operation": d,
@@ -1139,6 +1428,7 @@ fn main() {
                 && runs.r0.iter().zip(runs.alt[0].iter()).all(|(a, b)| match (&a.out, &b.out) {
                     (IOut::Top(_, x), IOut::Top(_, y)) => exec_common::outcome_class(x) == exec_common::outcome_class(y),
                     (IOut::Id(x), IOut::Id(y)) => x == y,
+                    (IOut::Opaque(x, _), IOut::Opaque(y, _)) => exec_common::outcome_class(x) == exec_common::outcome_class(y),
                     (IOut::Unit, IOut::Unit) | (IOut::Probe(..), IOut::Probe(..)) => true,
                     _ => false,
                 });
@@ -1151,7 +1441,7 @@ fn main() {
             let contracts = runs.r0.last().map(|o| o.state.reg.len()).unwrap_or(0);
             let failing = runs.r0.iter().any(|o| matches!(&o.out, IOut::Top(_, x) if !matches!(x, OutcomeS::Ok(_))) || matches!(o.out, IOut::Id(IdOut::Err) | IOut::Id(IdOut::Panic)));
             let nt = args.replay.is_some() || (stores_ok >= 2 && contracts >= 1 && failing);
-            let mut names: Vec<&str> = RUN_NAMES.to_vec();
+            let mut names: Vec<&str> = other_names.clone();
             names.extend(ALT_NAMES.iter());
             // keep the JSON of the case small: run (i) in full, other runs only where they differ
             out.push(Case {
@@ -1171,8 +1461,9 @@ fn main() {
     out.stat("nondet_sources_hits", nondet.len() as u64);
     out.stat("cases_with_a_transcript_difference", n_mismatch_cases);
     let rule = format!(
-        "history = code operations in varying order (store_code, store_code_with_creator, store_code_with_id incl. id 0 / duplicate / u64::MAX, duplicate_code; explicit and generated checksums; one store possibly postponed between calls) + code-info probes + the exec_common scenario (mint, instantiate 2-4 contracts, 2-5 random top-level calls with instantiate / instantiate2, queries incl. code info, failures) with set_block only where the block changes; each history run alone and in 11 other circumstances ({}; polluters = 2-6 apps with other Api prefixes / bech32m, other block and chain id, pre-seeded storage, other code under the SAME code ids, instantiating the same (code id, instance number) pairs and salts, alive while the scenario runs), plus a second family compared among themselves: the history transposed to the address prefix 'juno' ({}); distinct by SHA-256 of the history; non-trivial = at least two code ids stored, at least one contract address generated, at least one failing operation.  Advisory nondeterminism scan of /repo/src (Generated.nondet_sources): {}",
+        "history = code operations in varying order (store_code, store_code_with_creator, store_code_with_id incl. id 0 / duplicate / u64::MAX, duplicate_code; explicit and generated checksums; one store possibly postponed between calls) + code-info probes + the exec_common scenario (mint, instantiate 2-4 contracts, 2-5 random top-level calls with instantiate / instantiate2, queries incl. code info, failures) with set_block only where the block changes; each history run alone and in 11 other circumstances ({}; polluters = 2-6 apps with other Api prefixes / bech32m, other block and chain id, pre-seeded storage, other code under the SAME code ids, instantiating the same (code id, instance number) pairs and salts, alive while the scenario runs), histories with operations the executor model does not cover (staking set-up, Delegate / Undelegate / Redelegate, WithdrawDelegatorReward, Slash, update_block / set_block with queue processing: opaque to the model, fully compared across runs; 2 fixed histories, generated ones in the thorough tier) get two LATE runs more than a second of wall-clock time after run (i) ({}); plus a second family compared among themselves: the history transposed to the address prefix 'juno' ({}); distinct by SHA-256 of the history; non-trivial = at least two code ids stored, at least one contract address generated, at least one failing operation.  Advisory nondeterminism scan of /repo/src (Generated.nondet_sources): {}",
         RUN_NAMES.join(", "),
+        LATE_NAMES.join(", "),
         ALT_NAMES.join(", "),
         if nondet.is_empty() { "no hit".to_string() } else { format!("{} hit(s): {}", nondet.len(), nondet.join(" ")) }
     );
